@@ -28,6 +28,8 @@ structure Inv (cfg : Cfg) (s : MP) (fl live : List Addr) : Prop where
   /-- the pool holds the valid handle of its chunk list -/
   lptr : s.chunkList = s.blkLive
   lsome : s.blkLive ≠ none
+  /-- handles are handed out in increasing order: the next one is fresh -/
+  lfresh : ∀ h, s.blkLive = some h → h < s.blkNext
   /-- the block is large enough for `chunk_list_len` entries -/
   lcap : s.listLen ≤ s.blkData.size
   cntLt : s.listCnt < s.listLen
@@ -125,6 +127,7 @@ theorem initPool_inv {cfg : Cfg} {s : MP} {sz num : Nat} (hcfg : CfgOK cfg) (h8 
     isz := Nat.mul_mod_left _ _
     lptr := rfl
     lsome := by simp
+    lfresh := fun h e => by simp only [Option.some.injEq] at e; show h < s.blkNext + 1; omega
     lcap := by simp
     cntLt := hcfg.clsPos
     cntMem := by simp [hmem]
